@@ -581,3 +581,9 @@ def check(run, prog, tier):
                "%s (line %s): path %s reaches the end of the opcode without decreasing %s->subtype - the loop then runs past the end of the string" % (show(n)[:40], n.get("l"), p[:8], base), ei.file, n.get("l"), "eval_instruction",
                what="foreach over a string advances its byte cursor without counting the byte (invalid multibyte sequence or NUL): heap over-read handed to LPC code")
         ordl += 1
+
+    # ---- C01-m integer division of script values cannot trap
+    run.rule("C01-m", "run-time arithmetic: every signed `/`, `%`, `/=`, `%=` whose divisor is an LPC number (a .number member, or a local assigned from one) is reached only with the divisor known not to be -1: MIN / -1 traps (SIGFPE) and kills the driver where the worst outcome must be an LPC error", 4)
+    import divrule
+    divrule.check(run, prog, "C01-m", lambda p: ("/src/" in p or "/lib/efuns/" in p or "/lib/lpc/" in p or "/lib/socket/" in p) and not any(p.endswith(u) for u in (
+        "lib/lpc/lex.c", "lib/lpc/preprocess.c", "lib/lpc/compiler.c", "lib/lpc/grammar.c", "lib/lpc/grammar.y", "lib/lpc/program/parse_trees.c", "lib/lpc/program/icode.c", "lib/lpc/program/generate.c")), minimum=4)
